@@ -133,4 +133,31 @@ theorem utf8_rejects_other : utf8 .other = .error .typeError ∧ toUnicode .othe
 example : toUnicode (.bytes [0xE2, 0x82, 0xAC, 0xF0, 0x9F, 0x98, 0x80]) = .ok (.str [0x20AC, 0x1F600]) := by rfl
 example : toUnicode (.bytes [0xED, 0xA0, 0x80]) = .error .decodeError := by rfl
 
+/-! ## query strings -/
+
+/-- **qs_bytes_preserved**: for every list of (name, value) byte-string pairs, parsing its form-encoding with
+`keep_blank_values=True` returns exactly those pairs, byte for byte and in order (`parse_qsl` level), and
+`parse_qs_bytes` returns them grouped by name in first-occurrence order without error. -/
+theorem qs_bytes_preserved (pairs : List (Bytes × Bytes)) (h : BytePairs pairs) :
+    parseQsl true false (Spec.encodeQs pairs) = .ok pairs
+    ∧ parseQsBytes true false (Spec.encodeQs pairs) = .ok (groupPairs pairs) := by
+  have h1 : parseQsl true false (Spec.encodeQs pairs) = .ok pairs := by
+    rw [parseQsl_encodeQs true pairs h]; simp
+  refine ⟨h1, ?_⟩
+  unfold parseQsBytes
+  rw [h1]
+  simp only [groupPairs_latin1 pairs (fun p hp => (h p hp).2), if_true]
+
+/-- default `keep_blank_values=False`: exactly the pairs with a non-empty value survive, unchanged -/
+theorem qs_bytes_preserved_default (pairs : List (Bytes × Bytes)) (h : BytePairs pairs) :
+    parseQsl false false (Spec.encodeQs pairs) = .ok (pairs.filter (fun p => !p.2.isEmpty)) := by
+  rw [parseQsl_encodeQs false pairs h]; simp
+
+example : BytePairs [([97, 38], [61, 255, 32]), ([], [43])] := by
+  intro p hp; simp at hp; rcases hp with rfl | rfl <;> decide
+example : Spec.encodeQs [([97, 38], [61, 255, 32]), ([], [43])]
+    = [97, 37, 50, 54, 61, 37, 51, 68, 37, 70, 70, 43, 38, 61, 37, 50, 66] := by decide   -- a%26=%3D%FF+&=%2B
+example : parseQsBytes true false [97, 37, 50, 54, 61, 37, 51, 68, 37, 70, 70, 43, 38, 61, 37, 50, 66]
+    = .ok [([97, 38], [[61, 255, 32]]), ([], [[43]])] := by rfl
+
 end TornadoModel.C21
